@@ -195,6 +195,15 @@ func outerBody(sc scenario, rec *recorder, judged *bool) {
 		rec.mu.Unlock()
 		cancel()
 		rec.ev("rel_ret", tv.M{"g": g})
+		if st.Twice {
+			rec.ev("rel_again", tv.M{"g": g, "now": now()})
+			cancel()
+		}
+		if st.Again > 0 {
+			time.Sleep(ms(st.Again))
+			rec.ev("rel_again", tv.M{"g": g, "now": now()})
+			cancel()
+		}
 	}
 	writer := func(st ostep) {
 		defer all.Done()
@@ -228,7 +237,7 @@ func outerBody(sc scenario, rec *recorder, judged *bool) {
 			parents[st.G] = pcancel
 			pmu.Unlock()
 			go reader(st, pctx, pcancel)
-			total += st.D
+			total += st.D + st.Again
 		case "lock":
 			all.Add(1)
 			go writer(st)
